@@ -289,13 +289,16 @@ def _apply_links(x, links, lf, last_lazy=False):
   return x
 
 
-def run_lazy(ops, lf, cu, client, err_kind):
-  """`client` given: through CourierClient / RemoteObject / RemoteIterator;  None: lazy_fns.maybe_make in process."""
+def run_lazy(ops, lf, cu, client, err_kind, pickle=False):
+  """`client` given: through CourierClient / RemoteObject / RemoteIterator;  None: lazy_fns.maybe_make in process
+  (`pickle`: of the pickled expression)."""
   remote = client is not None
   results, obs = [], []
 
   def ev(expr):
-    return client.get_result(expr) if remote else lf.maybe_make(expr)
+    if remote:
+      return client.get_result(expr)
+    return lf.maybe_make(lf.pickler.dumps(expr) if pickle else expr)
 
   for op in ops:
     k = op['op']
@@ -314,7 +317,7 @@ def run_lazy(ops, lf, cu, client, err_kind):
         root = h if isinstance(h, cu.RemoteObject) else h.iterator
         thunk = lambda: _apply_links(root, op['links'], lf, op.get('lazy', False)).result_()
       else:
-        thunk = lambda: lf.maybe_make(_apply_links(h, op['links'], lf, op.get('lazy', False)))
+        thunk = lambda: ev(_apply_links(h, op['links'], lf, op.get('lazy', False)))
     elif k == 'getf':
       # explicit flags: the expression is written on the LazyObject the handle carries and sent as it is
       root = (h.value if isinstance(h, cu.RemoteObject) else h.iterator.value) if remote else h
@@ -324,13 +327,13 @@ def run_lazy(ops, lf, cu, client, err_kind):
         root = h if isinstance(h, cu.RemoteObject) else h.iterator
         thunk = lambda: iter(_apply_links(root, op['links'], lf))
       else:
-        thunk = lambda: lf.maybe_make(lf.trace(iter)(_apply_links(h, op['links'], lf), lazy_result_=True))
+        thunk = lambda: ev(lf.trace(iter)(_apply_links(h, op['links'], lf), lazy_result_=True))
     elif k == 'next':
       if remote:
         it = h if isinstance(h, cu.RemoteIterator) else cu.RemoteIterator(h)
         thunk = lambda: next(it)
       else:
-        thunk = lambda: lf.maybe_make(lf.trace(next)(h))
+        thunk = lambda: ev(lf.trace(next)(h))
     if thunk is not None:
       try:
         r = thunk()
